@@ -12,4 +12,8 @@ def regen():
         write_if_changed(d / "ValidatorTbl.v", validators_tbl.render())
     except Exception as e:  # TranslateError or anything else: fail closed
         errs.append(("ValidatorTbl.v", f"{type(e).__name__}: {e}"))
+    try:
+        write_if_changed(d / "CodecGuards.v", validators_tbl.render_codec())
+    except Exception as e:
+        errs.append(("CodecGuards.v", f"{type(e).__name__}: {e}"))
     return errs
